@@ -136,11 +136,11 @@ pub fn cont_maps() {
     }
     let r = <BTreeMap<u8, Leaf> as Deserr<Rec>>::deserialize_from_value::<KV>(to_value(n), l);
     match r { Ok(m) => { oblige!(ex.log.n == 0 && m.len() == want.len() && m.iter().all(|(k, v)| want.get(k) == Some(&lv(v))), "C06:map_keys_each_entry_by_the_parsed_key"); oblige!(rec::calls() == 0, "C01:ok_only_if_nothing_reported"); }
-              Err(e) => { oblige!(ex.log.n > 0, "C06:unparsable_key_or_faulty_value_fails_the_call"); oblige!(e.same(&rec::global()) && agree_until_stop(&e, &ex.log) && (!no_stop(&e) || e.n == ex.log.n) && stop_then_handover(&e), "C01,C02,C03,C04,C06:map_reports") } }
+              Err(e) => { oblige!(ex.log.n > 0, "C06:unparsable_key_or_faulty_value_fails_the_call"); oblige!(e.same(&rec::global()) && agree_until_stop(&e, &ex.log) && (!no_stop(&e) || e.n == ex.log.n) && stop_then_handover(&e), "C01,C02,C03,C04:map_reports") } }
     rec::reset();
     let r = <HashMap<u8, Leaf> as Deserr<Rec>>::deserialize_from_value::<KV>(to_value(n), l);
     match r { Ok(m) => { oblige!(ex.log.n == 0 && m.len() == want.len() && m.iter().all(|(k, v)| want.get(k) == Some(&lv(v))), "C06:map_keys_each_entry_by_the_parsed_key"); }
-              Err(e) => { oblige!(ex.log.n > 0, "C06:unparsable_key_or_faulty_value_fails_the_call"); oblige!(e.same(&rec::global()) && agree_until_stop(&e, &ex.log) && (!no_stop(&e) || e.n == ex.log.n) && stop_then_handover(&e), "C01,C02,C03,C04,C06:map_reports") } }
+              Err(e) => { oblige!(ex.log.n > 0, "C06:unparsable_key_or_faulty_value_fails_the_call"); oblige!(e.same(&rec::global()) && agree_until_stop(&e, &ex.log) && (!no_stop(&e) || e.n == ex.log.n) && stop_then_handover(&e), "C01,C02,C03,C04:map_reports") } }
 }
 
 pub fn registry() -> Vec<(&'static str, crate::Body)> {
